@@ -8,12 +8,21 @@ compress/zlib satisfy those laws is standard-library behaviour and enters as hyp
 `Toy.laws` shows the hypotheses are satisfiable, and the harness validates each law on every value
 and body it uses.  This property is therefore PARTIAL by nature: the theorems are about the glue.
 
-Two deviations of the code from the property as written were found; each has its full statement
-in a comment, a `_partial` theorem whose extra hypothesis is the class of the finding, and a
-`decide`d witness:
-  F61  a gzip/deflate body whose stream breaks AFTER a complete document was delivered (bad CRC,
-       cut trailer, corrupted stored block) is read without error — possibly to a wrong value;
-  F62  a Content-Type containing two registered keys selects a reader by Go map iteration order.
+Two deviations of the code from the property as written were found:
+  F62  (OPEN) a Content-Type containing two registered keys selects a reader by Go map iteration
+       order: full statement in a comment, `_partial` theorems whose extra hypothesis is the class
+       `Entity.f62`, and the `decide`d witness `C16_F62_witness`;
+  F61  (REPAIRED by 75d0593) a gzip/deflate body whose stream breaks AFTER a complete document was
+       delivered (bad CRC/Adler checksum, cut trailer, garbage after the member) used to be read
+       without error — possibly to a wrong value — because `ReadEntity` never read the stream to
+       its end.  It now drains a compressed body after a successful entity read and returns the
+       error the stream ends with (`Entity.drain`).  Nothing below assumes the class `Entity.f61`
+       any more: `C16_broken_coding` is the full statement, `C16_value_from_clean_stream` is its
+       converse (a value is only ever returned from a stream that ended cleanly),
+       `C16_former_F61_class` says what the former class yields now, `C16_F61_fixed` is the former
+       witness as a regression (`decide`d), and the predicate theorem `C16_spec_partial` carries
+       the F62 hypothesis only.  The laws `json_dirty` / `xml_dirty` that the partial theorem needed
+       are gone from `CodecLaws`.
 -/
 import Restful.Lemmas.Entity
 import Restful.Lemmas.EntityToy
@@ -39,11 +48,11 @@ theorem C16_round (L : CodecLaws Value) (cfg : Cfg) (hu : cfg.useNumber = true) 
     cases k <;> simp [entityRead, writeEntity, hu, L.json_round, L.xml_round]
   cases c with
   | identity =>
-    simp [readPure, declaredStream, requestOf, Coding.header, encodeBody, nil_ne_gzip.symm, nil_ne_deflate.symm, hread]
+    simp [readPure, declaredStream, requestOf, Coding.header, encodeBody, nil_ne_gzip.symm, nil_ne_deflate.symm, hread, drain]
   | gzip =>
-    simp [readPure, declaredStream, requestOf, Coding.header, encodeBody, L.gz_round, hread]
+    simp [readPure, declaredStream, requestOf, Coding.header, encodeBody, L.gz_round, hread, drain]
   | deflate =>
-    simp [readPure, declaredStream, requestOf, Coding.header, encodeBody, deflate_ne_gzip, L.zl_round, hread]
+    simp [readPure, declaredStream, requestOf, Coding.header, encodeBody, deflate_ne_gzip, L.zl_round, hread, drain]
 
 /-- non-vacuity of `C16_round`: the built-in registry, `; charset=utf-8`, a gzip-coded pretty JSON
     body, read through a bounded provider whose only reader was last used on a broken body -/
@@ -145,14 +154,17 @@ theorem C16_history (L : CodecLaws Value) (cfg : Cfg) (prov : Provider) (pool : 
 
 /-- non-vacuity of `C16_history`: bounded provider of capacity 1 (the one reader object is reused
     by every gzip read), a good gzip body, a truncated one, garbage declared gzip, a broken deflate
-    body, then the good one again: errors in the middle, the same value before and after -/
+    body, one whose trailer is cut after a complete document (the reader is read on to that error
+    and goes back to the pool), then the good one again: errors in the middle, the same value
+    before and after -/
 example :
     let good := requestOf Toy.codec .json false .big1 MIME_JSON .gzip
     let reqs : List RequestIn := [good, { good with body := "G{".toList }, { good with body := "xx".toList },
-      { good with contentEncoding := ENCODING_DEFLATE, body := "Q".toList }, good]
+      { good with contentEncoding := ENCODING_DEFLATE, body := "Q".toList }, { good with body := "G{c}\n".toList }, good]
     (readSeq Toy.codec Cfg.asIs (Pool.fresh Toy.codec (.bounded 1)) reqs).map (fun o => (o.results, o.reader)) =
       [([.ok .big1], some 0), ([.err .badEncoding], some 0), ([.err .badEncoding], some 0), ([.err .badEncoding], none),
-       ([.ok .big1], some 0)] := by
+       ([.err .badEncoding], some 0), ([.ok .big1], some 0)] ∧
+    (readSeq Toy.codec Cfg.asIs (Pool.fresh Toy.codec (.bounded 1)) reqs).map (·.results) = reqs.map (readOne Toy.codec Cfg.asIs (.bounded 1)) := by
   decide
 
 /-- the `Reset` law is what history independence hangs on: with a reader object that remembers
@@ -174,7 +186,7 @@ example :
     `Reset` — outside the quantifier (no body at all is not a "body"), the harness never builds it;
     (b) a nil or non-pointer `entityPointer`: encoding/json and encoding/xml return an error, no
     panic (probed); (c) a custom `CompressorProvider` returning nil — outside ("both compressor
-    providers"); (d) `zlib.NewReader`'s error is checked (request.go:87), `Reset`'s is not, but a
+    providers"); (d) `zlib.NewReader`'s error is checked (request.go:91), `Reset`'s is not, but a
     `gzip.Reader` whose `Reset` failed keeps the error and returns it from every `Read` — an error,
     not a panic; this is part of `reset_law` (`ungz` of a body without a gzip header is the stream
     `⟨[], false⟩`) and is validated by the harness on every such body. -/
@@ -185,70 +197,158 @@ theorem C16_error_no_panic (C : Codec Value) (cfg : Cfg) (pool : Pool) (req : Re
   unfold readEntity
   by_cases hg : req.contentEncoding = ENCODING_GZIP
   · simp only [hg, if_true]
-    exact lookupAndRead_ne_nil _ _ _ _
+    simpa using lookupAndRead_ne_nil _ _ _ _
   · simp only [hg, if_false]
     by_cases hd : req.contentEncoding = ENCODING_DEFLATE
     · simp only [hd, if_true]
       cases C.unzl req.body with
       | none => simp
-      | some s => exact lookupAndRead_ne_nil _ _ _ _
+      | some s => simpa using lookupAndRead_ne_nil _ _ _ _
     · simp only [hd, if_false]
       exact lookupAndRead_ne_nil _ _ _ _
 
-/-
-Full statement (FALSE for the code as it is):
-
-  theorem C16_broken_coding (L : CodecLaws Value) (cfg : Cfg) (pool : Pool) (req : RequestIn)
-      (hbroken : ∀ s, declaredStream L.toCodec req = some s → s.clean = false) :
-      ∀ r ∈ (readEntity L.toCodec cfg pool req).results, r.isErr = true
-
-`json.Decoder.Decode` and `xml.Decoder.Decode` return as soon as the first document is complete; the
-error the decompressor ends with (checksum, missing trailer, corrupt later block) is never seen,
-and `ReadEntity` does not drain the body.  The proof forces `f61 … = false`.
--/
-
-/-- F61 on the model: a gzip body cut before its trailer (the toy's `#`), hence a broken stream,
-    is read without error -/
-theorem C16_F61_witness :
-    let req : RequestIn := { contentType := MIME_JSON, contentEncoding := ENCODING_GZIP, body := "G{c}\n".toList }
-    (declaredStream Toy.codec req).map (·.clean) = some false ∧ Entity.f61 Toy.codec Cfg.asIs req = true ∧
-      (readEntity Toy.codec Cfg.asIs (Pool.fresh Toy.codec .syncPool) req).results = [.ok .big1] := by
-  decide
-
 /-- A body that is not what its declared coding says (no gzip/zlib header, truncated, corrupt,
-    empty) yields an error from every reader the lookup can select — outside class F61, i.e. unless
-    the bytes delivered before the stream broke are already a complete document. -/
-theorem C16_broken_coding_partial (L : CodecLaws Value) (cfg : Cfg) (pool : Pool) (req : RequestIn)
-    (hbroken : ∀ s, declaredStream L.toCodec req = some s → s.clean = false)
-    (hF61 : Entity.f61 L.toCodec cfg req = false) :
+    empty, trailer cut or damaged, garbage after the member) yields an error from every reader the
+    lookup can select — WHEREVER the stream breaks, also after a complete document was delivered:
+    the entity decoder stops at the end of the first document, `ReadEntity` reads on to the end of
+    the stream and returns what it ends with (request.go:111-117).  Full statement (until 75d0593 it
+    held only outside the class `Entity.f61`: finding F61). -/
+theorem C16_broken_coding (L : CodecLaws Value) (cfg : Cfg) (pool : Pool) (req : RequestIn)
+    (hbroken : ∀ s, declaredStream L.toCodec req = some s → s.clean = false) :
     ∀ r ∈ (readEntity L.toCodec cfg pool req).results, r.isErr = true := by
   rw [readEntity_results]
   unfold readPure
-  unfold Entity.f61 at hF61
   cases hs : declaredStream L.toCodec req with
   | none => simp [Result.isErr]
   | some s =>
+    simp only [List.mem_map, forall_exists_index, and_imp]
+    intro r r' _ hr
+    rw [← hr]
+    exact drain_dirty (hbroken s hs) r'
+
+/-- non-vacuity of `C16_broken_coding`: trailer cut after a complete document (gzip and deflate),
+    cut inside the document, no header at all, empty body — the hypothesis holds and every result
+    is an error; the last conjunct: an UNDECLARED body is not drained, what follows its first
+    document is never looked at -/
+example :
+    let bodies : List (Str × Str) := [(ENCODING_GZIP, "G{c}\n".toList), (ENCODING_DEFLATE, "Z{c}\n".toList), (ENCODING_GZIP, "G{".toList),
+      (ENCODING_GZIP, "xx".toList), (ENCODING_DEFLATE, "Q".toList), (ENCODING_GZIP, [])]
+    (∀ b ∈ bodies, (∀ s, declaredStream Toy.codec ⟨MIME_JSON, b.1, b.2⟩ = some s → s.clean = false) ∧
+      (readEntity Toy.codec Cfg.asIs (Pool.fresh Toy.codec (.bounded 1)) ⟨MIME_JSON, b.1, b.2⟩).results = [.err .badEncoding]) ∧
+    (readEntity Toy.codec Cfg.asIs (Pool.fresh Toy.codec (.bounded 1)) ⟨MIME_JSON, [], "{c}\nG#".toList⟩).results = [.ok .big1] := by
+  decide
+
+/-- …and which error: the one of the broken coding, unless no reader is registered for the
+    Content-Type (the 400 comes first: nothing has been read then) -/
+theorem C16_broken_coding_kind (L : CodecLaws Value) (cfg : Cfg) (pool : Pool) (req : RequestIn)
+    (hbroken : ∀ s, declaredStream L.toCodec req = some s → s.clean = false) :
+    ∀ r ∈ (readEntity L.toCodec cfg pool req).results, r = .err .badEncoding ∨ r = .err .noReader400 := by
+  rw [readEntity_results]
+  unfold readPure
+  cases hs : declaredStream L.toCodec req with
+  | none => simp
+  | some s =>
     have hc : s.clean = false := hbroken s hs
-    rw [hs] at hF61
-    simp only [hc, Bool.not_false, Bool.true_and, List.any_eq_false] at hF61
     unfold lookupAndRead
-    cases ha : accessorsFor cfg req.contentType with
-    | nil => simp [Result.isErr]
+    cases accessorsFor cfg req.contentType with
+    | nil => simp [drain]
     | cons a as =>
-      simp only [List.mem_map, forall_exists_index, and_imp]
-      intro r k hk hr
-      have hdoc := hF61 k (by rw [ha] at hF61 ⊢; exact hk)
-      have hsd : s = ⟨s.data, false⟩ := by cases s; simp_all
-      rw [← hr, hsd]
-      unfold docFor at hdoc
+      simp only [List.map_map, List.mem_map, Function.comp_apply, forall_exists_index, and_imp]
+      intro r k _ hr
+      left
+      rw [← hr]
       unfold entityRead
-      cases k with
-      | json =>
-        simp only [Bool.not_eq_true, Option.isSome_eq_false_iff, Option.isNone_iff_eq_none] at hdoc
-        simp [L.json_dirty _ _ hdoc, Result.isErr]
-      | xml =>
-        simp only [Bool.not_eq_true, Option.isSome_eq_false_iff, Option.isNone_iff_eq_none] at hdoc
-        simp [L.xml_dirty _ hdoc, Result.isErr]
+      cases k <;> simp only <;> split <;> simp [drain, hc]
+
+/-- Conversely, a VALUE is only ever returned from a stream that was read to its clean end, and it
+    is the value a reader the lookup allows finds in that stream: no value — in particular no wrong
+    value (the former F61: i64 9007199254740993 read as 1007199254740993 from a body whose CRC did
+    not match) — comes out of a stream that is cut or corrupt anywhere. -/
+theorem C16_value_from_clean_stream (L : CodecLaws Value) (cfg : Cfg) (pool : Pool) (req : RequestIn) (v : Value)
+    (h : Result.ok v ∈ (readEntity L.toCodec cfg pool req).results) :
+    ∃ s k, declaredStream L.toCodec req = some s ∧ s.clean = true ∧ k ∈ accessorsFor cfg req.contentType ∧
+      entityRead L.toCodec cfg k s = .ok v := by
+  rw [readEntity_results] at h
+  unfold readPure at h
+  cases hs : declaredStream L.toCodec req with
+  | none => rw [hs] at h; simp at h
+  | some s =>
+    rw [hs] at h
+    simp only [List.mem_map] at h
+    obtain ⟨r', hr', hd⟩ := h
+    cases r' with
+    | err k => simp [drain] at hd
+    | ok v' =>
+      by_cases hc : s.clean = true
+      · simp only [drain, hc, if_true, Result.ok.injEq] at hd
+        subst hd
+        unfold lookupAndRead at hr'
+        cases ha : accessorsFor cfg req.contentType with
+        | nil => rw [ha] at hr'; simp at hr'
+        | cons a as =>
+          rw [ha] at hr'
+          simp only [List.mem_map] at hr'
+          obtain ⟨k, hk, hk'⟩ := hr'
+          exact ⟨s, k, rfl, hc, hk, hk'⟩
+      · simp [drain, hc] at hd
+
+/-- non-vacuity of `C16_value_from_clean_stream` -/
+example :
+    let req := requestOf Toy.codec .json true .big1 "application/json; charset=utf-8".toList .deflate
+    Result.ok Toy.V.big1 ∈ (readEntity Toy.codec Cfg.asIs (Pool.fresh Toy.codec .syncPool) req).results ∧
+      declaredStream Toy.codec req = some ⟨"  {c}\n".toList, true⟩ ∧ Kind.json ∈ accessorsFor Cfg.asIs req.contentType ∧
+      entityRead Toy.codec Cfg.asIs .json ⟨"  {c}\n".toList, true⟩ = .ok .big1 := by
+  decide
+
+/-- What the class of the repaired finding F61 yields now — the declared coding's stream breaks
+    after it delivered a complete document for a selectable reader: the error of the broken coding,
+    from every reader the lookup can select. -/
+theorem C16_former_F61_class (L : CodecLaws Value) (cfg : Cfg) (pool : Pool) (req : RequestIn)
+    (hclass : Entity.f61 L.toCodec cfg req = true) :
+    ∀ r ∈ (readEntity L.toCodec cfg pool req).results, r = .err .badEncoding := by
+  unfold Entity.f61 at hclass
+  cases hs : declaredStream L.toCodec req with
+  | none => rw [hs] at hclass; simp at hclass
+  | some s =>
+    rw [hs] at hclass
+    simp only [Bool.and_eq_true, Bool.not_eq_true', List.any_eq_true] at hclass
+    obtain ⟨hc, k, hk, _⟩ := hclass
+    intro r hr
+    rcases C16_broken_coding_kind L cfg pool req (fun s' hs' => by rw [hs] at hs'; cases hs'; exact hc) r hr with h | h
+    · exact h
+    · exfalso
+      rw [readEntity_results] at hr
+      unfold readPure at hr
+      rw [hs] at hr
+      unfold lookupAndRead at hr
+      cases ha : accessorsFor cfg req.contentType with
+      | nil => rw [ha] at hk; cases hk
+      | cons a as =>
+        rw [ha] at hr
+        simp only [List.map_map, List.mem_map, Function.comp_apply] at hr
+        obtain ⟨k', _, hk'⟩ := hr
+        rw [h] at hk'
+        unfold entityRead at hk'
+        revert hk'
+        cases k' <;> simp only <;> split <;> simp [drain, hc]
+
+/-- The former witness of F61 as a regression, on the model: a gzip body cut before its trailer
+    (the toy's `#`) after a complete document — a broken stream, in the former class — is now
+    answered with the error of the broken coding (before 75d0593: `[.ok .big1]`), and so is its
+    deflate twin; the predicate of the check holds on what the model does with it, and still rejects
+    what the unrepaired code answered. -/
+theorem C16_F61_fixed :
+    let req : RequestIn := { contentType := MIME_JSON, contentEncoding := ENCODING_GZIP, body := "G{c}\n".toList }
+    let zreq : RequestIn := { contentType := MIME_JSON, contentEncoding := ENCODING_DEFLATE, body := "Z{c}\n".toList }
+    let obs := observe Toy.codec Cfg.asIs (fun v => [v.ch]) .syncPool (Pool.fresh Toy.codec .syncPool)
+      [{ req := req, kind := .json, v := .big1, faithful := false }, { req := zreq, kind := .json, v := .big1, faithful := false }]
+    (declaredStream Toy.codec req).map (·.clean) = some false ∧ Entity.f61 Toy.codec Cfg.asIs req = true ∧
+      (readEntity Toy.codec Cfg.asIs (Pool.fresh Toy.codec .syncPool) req).results = [.err .badEncoding] ∧
+      (declaredStream Toy.codec zreq).map (·.clean) = some false ∧ Entity.f61 Toy.codec Cfg.asIs zreq = true ∧
+      (readEntity Toy.codec Cfg.asIs (Pool.fresh Toy.codec .syncPool) zreq).results = [.err .badEncoding] ∧
+      obs.map (·.real) = [.err, .err] ∧ Spec.c16Holds Cfg.asIs obs = true ∧
+      Spec.c16Holds Cfg.asIs (obs.map fun o => { o with real := .ok ['c'], alone := .ok ['c'] }) = false := by
+  decide
 
 /-- Bytes that decode cleanly under the declared coding but are not a document for the selected
     reader yield a syntax error. -/
@@ -266,10 +366,10 @@ theorem C16_broken_syntax (L : CodecLaws Value) (cfg : Cfg) (pool : Pool) (req :
   cases k with
   | json =>
     simp only [Option.isSome_eq_false_iff, Option.isNone_iff_eq_none] at hdoc
-    simp [hdoc]
+    simp [hdoc, drain]
   | xml =>
     simp only [Option.isSome_eq_false_iff, Option.isNone_iff_eq_none] at hdoc
-    simp [hdoc]
+    simp [hdoc, drain]
 
 /-- no reader, no default: the 400, whatever the body and its coding (except that a refused zlib
     header is reported first) -/
@@ -278,13 +378,13 @@ theorem C16_no_reader (C : Codec Value) (cfg : Cfg) (pool : Pool) (req : Request
     (readEntity C cfg pool req).results = [.err .noReader400] := by
   unfold readEntity
   by_cases hg : req.contentEncoding = ENCODING_GZIP
-  · simp [hg, lookupAndRead, hnone]
+  · simp [hg, lookupAndRead, hnone, drain]
   · simp only [hg, if_false]
     by_cases hd : req.contentEncoding = ENCODING_DEFLATE
     · simp only [hd, if_true]
       cases hu : C.unzl req.body with
       | none => exact absurd hu (hz hd)
-      | some s => simp [lookupAndRead, hnone]
+      | some s => simp [lookupAndRead, hnone, drain]
     · simp [hd, lookupAndRead, hnone]
 
 /-! ## the pooled reader: released on every path, never lost -/
@@ -324,16 +424,30 @@ theorem C16_release_always (C : Codec Value) (cfg : Cfg) (cap : Nat) (pool : Poo
       · simp only [hd, if_false]
         exact ⟨hp, hfull⟩
 
+/-- the state in which the pooled reader goes back (`readerAfter`; the toy marks "read to the end"
+    with `$`): read to the end after a successful entity read — also when that end is an error —,
+    as the entity decoder left it when that failed, untouched on the 400 path; and, the `Reset` law
+    holding, without any effect on the reads that follow on the same object -/
+example :
+    let good := requestOf Toy.codec .json false .small MIME_JSON .gzip
+    let reqs : List RequestIn := [good, { good with body := "G{s}\n".toList }, { good with body := "G{".toList },
+      { good with contentType := "text/plain".toList }, good]
+    (readSeq Toy.codec Cfg.asIs (Pool.fresh Toy.codec (.bounded 1)) reqs).map (fun o => (o.results, o.reader, o.pool.idle.map (·.residue))) =
+      [([.ok .small], some 0, ["$G{s}\n#".toList]), ([.err .badEncoding], some 0, ["$G{s}\n".toList]),
+       ([.err .badEncoding], some 0, ["G{".toList]), ([.err .noReader400], some 0, ["G{".toList]),
+       ([.ok .small], some 0, ["$G{s}\n#".toList])] := by
+  decide
+
 /-! ## the predicate of the check holds on everything the model does -/
 
 /-- `Spec.c16Holds` — the very predicate the driver evaluates on what the real code did — holds on
     every history of the model: any codec satisfying the laws, any well-formed registry, any default,
-    any provider and starting pool, any sequence of requests whose `faithful` flags are honest,
-    outside the two finding classes. -/
+    any provider and starting pool, any sequence of requests whose `faithful` flags are honest —
+    bodies broken anywhere included (the class of the repaired F61 is no longer excluded) — outside
+    the class of the one open finding, F62. -/
 theorem C16_spec_partial (L : CodecLaws Value) (cfg : Cfg) (hwf : cfg.wf = true) (hu : cfg.useNumber = true)
     (canon : Value → Str) (prov : Provider) (pool : Pool) (items : List (Item Value))
     (hsound : ∀ it ∈ items, it.sound L.toCodec)
-    (hF61 : ∀ it ∈ items, Entity.f61 L.toCodec cfg it.req = false)
     (hF62 : ∀ it ∈ items, Entity.f62 cfg it.req.contentType = false) :
     Spec.c16Holds cfg (observe L.toCodec cfg canon prov pool items) = true := by
   unfold Spec.c16Holds
@@ -341,10 +455,8 @@ theorem C16_spec_partial (L : CodecLaws Value) (cfg : Cfg) (hwf : cfg.wf = true)
   | nil => rfl
   | cons it its ih =>
     simp only [observe, List.all_cons, Bool.and_eq_true]
-    refine ⟨?_, ih _ (fun i hi => hsound i (List.mem_cons_of_mem _ hi)) (fun i hi => hF61 i (List.mem_cons_of_mem _ hi))
-      (fun i hi => hF62 i (List.mem_cons_of_mem _ hi))⟩
+    refine ⟨?_, ih _ (fun i hi => hsound i (List.mem_cons_of_mem _ hi)) (fun i hi => hF62 i (List.mem_cons_of_mem _ hi))⟩
     have hs := hsound it (List.mem_cons_self ..)
-    have h61 := hF61 it (List.mem_cons_self ..)
     have h62 := hF62 it (List.mem_cons_self ..)
     unfold readHolds
     simp only [Bool.and_eq_true]
@@ -370,7 +482,7 @@ theorem C16_spec_partial (L : CodecLaws Value) (cfg : Cfg) (hwf : cfg.wf = true)
       · exact Or.inl hc
       · right
         apply pick_isErr
-        apply C16_broken_coding_partial L cfg pool it.req _ h61
+        apply C16_broken_coding L cfg pool it.req
         intro s hds
         unfold factsOf at hc
         rw [hds] at hc
@@ -407,7 +519,8 @@ theorem C16_spec_partial (L : CodecLaws Value) (cfg : Cfg) (hwf : cfg.wf = true)
     · -- ledger
       rcases readEntity_events L.toCodec cfg pool it.req with h | h <;> rw [h] <;> decide
 
-/-- non-vacuity of `C16_spec_partial`: a history on the toy codec with good and broken bodies, all
+/-- non-vacuity of `C16_spec_partial`: a history on the toy codec with good and broken bodies —
+    among them one of the former class F61 (gzip trailer cut after a complete document) — all
     hypotheses checked, and the predicate evaluated to true -/
 example :
     let good (k : Kind) (ct : Str) (c : Coding) : Item Toy.V := { req := requestOf Toy.codec k true .big1 ct c, kind := k, v := .big1, faithful := true }
@@ -415,15 +528,17 @@ example :
       { req := { contentType := MIME_JSON, contentEncoding := ENCODING_GZIP, body := "G{".toList }, kind := .json, v := .small, faithful := false },
       good .xml MIME_XML .deflate, good .json [] .identity,
       { req := { contentType := MIME_XML, contentEncoding := [], body := "<s".toList }, kind := .xml, v := .small, faithful := false },
+      { req := { contentType := MIME_JSON, contentEncoding := ENCODING_GZIP, body := "G{c}\n".toList }, kind := .json, v := .big1, faithful := false },
       good .json MIME_JSON .gzip]
     let cfg := Cfg.asIs MIME_JSON
-    cfg.wf = true ∧ (∀ it ∈ items, Entity.f61 Toy.codec cfg it.req = false ∧ Entity.f62 cfg it.req.contentType = false) ∧
+    cfg.wf = true ∧ (∀ it ∈ items, Entity.f62 cfg it.req.contentType = false) ∧ (items.map fun it => Entity.f61 Toy.codec cfg it.req) =
+        [false, false, false, false, false, true, false] ∧
       (observe Toy.codec cfg (fun v => [v.ch]) (.bounded 1) (Pool.fresh Toy.codec (.bounded 1)) items).map (·.real) =
-        [.ok ['c'], .err, .ok ['c'], .ok ['c'], .err, .ok ['c']] ∧
+        [.ok ['c'], .err, .ok ['c'], .ok ['c'], .err, .err, .ok ['c']] ∧
       Spec.c16Holds cfg (observe Toy.codec cfg (fun v => [v.ch]) (.bounded 1) (Pool.fresh Toy.codec (.bounded 1)) items) = true := by
   decide
 
-/-- the predicate is not trivially true: it rejects the F61 read (an ok where the coding is broken),
+/-- the predicate is not trivially true: it rejects the read of the former F61 (an ok where the coding is broken),
     a panic, a value that differs from what was written, a result that differs from the read alone,
     and a reader released before it is used -/
 example :
